@@ -294,8 +294,8 @@ func runC06(c *fw.Ctx, idx int) fw.Result {
 	for _, t := range ts {
 		tsRecs = append(tsRecs, t.rec)
 	}
-	qText := gen.RenderFasta(qs, gen.PickLineWidth(r, W))
-	tText := gen.RenderFasta(tsRecs, gen.PickLineWidth(r, W))
+	qText := noFinalNL(r, gen.RenderFasta(qs, gen.PickLineWidth(r, W)))
+	tText := noFinalNL(r, gen.RenderFasta(tsRecs, gen.PickLineWidth(r, W)))
 	plain := n == 0 && D == -1.0
 	var out string
 	var err error
